@@ -60,9 +60,13 @@ def install_model(ex, R, reg, W, scen):
     def key_of(st, p): return ex.read_bytes(st, ex.load(st, p, I64), ex.load(st, p + 8, I64)).decode()
     def e_parse_cmd(ex, st, fr, a, ins):
         sret, ac, av, desc, style = a[0], a[1], a[2], a[3], a[4]
+        if scen == 'cmderror':
+            st.events.append(('parser-throws', 'command line')); obj = ex.malloc(st, 64); vt = ex.malloc(st, 64); ex.store(st, obj, I64, vt); raise CxxThrow(obj, '<any>')
         st.extra.setdefault('parsed', {})[sret] = ('cmd', G.get(desc), style); st.events.append(('parse_command_line', G.get(desc), style)); return None
     def e_parse_cfg(ex, st, fr, a, ins):
         sret, strm, desc, allow = a
+        if scen == 'cfgerror':
+            st.events.append(('parser-throws', 'config file')); obj = ex.malloc(st, 64); vt = ex.malloc(st, 64); ex.store(st, obj, I64, vt); raise CxxThrow(obj, '<any>')
         st.extra.setdefault('parsed', {})[sret] = ('cfg', G.get(desc), allow); st.events.append(('parse_config_file', G.get(desc), allow)); return None
     def e_store(ex, st, fr, a, ins):
         kind, group, x = st.extra['parsed'][a[0]]
@@ -72,10 +76,10 @@ def install_model(ex, R, reg, W, scen):
         for n, o in reg[group].items():
             given = W.given[kind].get(n, False)
             if scen.startswith('flag:') and kind == 'cmd' and n == scen[5:]: given = True
-            if n == 'config' and kind == 'cmd': given = scen in ('cfg', 'missing')
+            if n == 'config' and kind == 'cmd': given = scen in ('cfg', 'missing', 'cfgerror')
             if given is False: continue
             e = V.get(n)
-            if e is None: V[n] = {'present': given, 'defaulted': False, 'value': W.val[kind][n] if n != 'config' else (R['cfgbytes'] if scen == 'cfg' else b'/nonexistent/missing.cfg'), 'opt': (group, n)}
+            if e is None: V[n] = {'present': given, 'defaulted': False, 'value': W.val[kind][n] if n != 'config' else (R['cfgbytes'] if scen in ('cfg', 'cfgerror') else b'/nonexistent/missing.cfg'), 'opt': (group, n)}
             else:
                 take = z3.And(given, z3.Or(z3.Not(e['present']), e['defaulted'])) if not (given is True and e['present'] is True) else (e['defaulted'] if e['present'] is True else None)
                 take = z3.simplify(take) if z3.is_expr(take) else take
@@ -143,7 +147,7 @@ def install_model(ex, R, reg, W, scen):
         if reg[gl][nl].ty != reg[gr][nr].ty: raise PathEnd('value of type %s assigned to option %s of type %s: notify() throws bad_any_cast' % (reg[gr][nr].ty, l, reg[gl][nl].ty))
         V[l] = dict(V[l], value=V[r]['value'])
         return a[0]
-    def e_exists(ex, st, fr, a, ins): return 1 if scen == 'cfg' else 0
+    def e_exists(ex, st, fr, a, ins): return 1 if scen in ('cfg', 'cfgerror') else 0
     def e_ifs_ctor(ex, st, fr, a, ins):
         vt = ex.malloc(st, 64); ex.store(st, vt + 8, I64, 256); ex.store(st, a[0], I64, vt + 32)      # libstdc++: basic_ios subobject of basic_ifstream at +256 (vbase offset at vptr-24)
         st.events.append(('open', _cstr_at(ex, st, a[1]))); return None
@@ -151,6 +155,13 @@ def install_model(ex, R, reg, W, scen):
         b = z3.Bool('open_failed_%d' % len(st.events)); st.events.append(('!ifs', b)); return z3.If(b, z3.BitVecVal(1, 1), z3.BitVecVal(0, 1))
     def e_out(ex, st, fr, a, ins): st.events.append(('print',)); return a[0]
     def e_str_ret(ex, st, fr, a, ins): _str_init(ex, st, a[0], b'text'); return None
+    def vcall(st_, fr_, ins, fp, args):
+        # virtual call on an exception object of the model (e.what()): a fixed message
+        st_.events.append(('vcall-on-exception',)); buf = ex.malloc(st_, 16); ex.write_bytes(st_, buf, b'parser error\0'); return buf
+    ex.indirect_hook = vcall
+    _orig_match = ex.exc_matches
+    ex.exc_matches = lambda thrown_, caught: True if thrown_ == '<any>' else _orig_match(thrown_, caught)      # an error of the parsers stands for every exception type they can throw
+    ex.ext['__cxa_begin_catch'] = ext_cxa_begin_catch
     PO = '_ZN5boost15program_options'
     ex.ext.update({PO + '18parse_command_lineIcEENS0_20basic_parsed_optionsIT_EEiPKPKS3_RKNS0_19options_descriptionEiNS_9function1ISt4pairINSt7__cxx1112basic_stringIcSt11char_traitsIcESaIcEEESJ_ERKSJ_EE': e_parse_cmd,
                    PO + '17parse_config_fileIcEENS0_20basic_parsed_optionsIT_EERSt13basic_istreamIS3_St11char_traitsIS3_EERKNS0_19options_descriptionEb': e_parse_cfg,
@@ -258,7 +269,7 @@ def concrete_world(reg, m, W, scen, only=None):
     return cmd, cfg, vals
 
 def native_parse(bld, scen, cmd, cfg):
-    wd = os.path.join(bld['dir'], 'wd'); d = os.path.join(OUT, 'replay'); os.makedirs(d, exist_ok=True)
+    wd = os.path.join(bld['dir'], 'wd'); d = os.path.join(OUT, 'replay'); os.makedirs(d, exist_ok=True); os.makedirs(wd, exist_ok=True)
     fin = os.path.join(d, 'c20-%d.in' % os.getpid()); fout = fin[:-3] + '.out'
     with open(fin, 'w') as f:
         f.write('workdir %s\n' % wd)
@@ -291,12 +302,20 @@ def job_parse(res, scen, strmode):
     exp, assume = expected(reg, W, scen, R, ex, st)
     account(res, ex, mod, [])
     st.pc = list(W.assume)
-    argc = 3 if scen in ('cfg', 'missing') else 1
+    argc = 3 if scen in ('cfg', 'missing', 'cfgerror') else 1
     outs = []
     for s in ex.run_all(st, 'e_parse', [R['opts'], argc, R['argv']]):
         if hasattr(s, 'error'): raise s.error
         outs.append(s)
     account(res, ex, mod, outs)
+    if scen in ('cfgerror', 'cmderror'):
+        src = 'config file' if scen == 'cfgerror' else 'command line'
+        hit = [s for s in outs if any(e[0] == 'parser-throws' for e in s.events)]
+        okp = bool(hit) and all(hasattr(s, 'ended') and 'uncaught C++ exception' in s.ended for s in hit)
+        res.obs.append(Ob('an error raised by the %s parser (unknown option, malformed value) leaves parse() as an exception - nothing in parse() catches it, so main turns it into a failure status (%d paths)' % (src, len(hit)),
+                          'holds' if okp else 'violated', key='parse-error-propagates', detail='' if okp else str([(getattr(s, 'ended', 'returned %r' % s.retval)) for s in hit][:2]),
+                          cex=None if okp else {'replay': 'parse-error', 'scen': scen}))
+        witness(res, 'the %s parser is reached' % src, [], z3.BoolVal(bool(hit))); return
     tag = 'scenario %s, string options given: %s' % ({'cfg': '"-c <existing file>"', 'nocfg': 'no config file', 'missing': '"-c <missing file>"'}.get(scen, scen), strmode)
     good = [s for s in outs if not hasattr(s, 'ended')]
     ended = [s for s in outs if hasattr(s, 'ended')]
@@ -502,8 +521,13 @@ def job_main_exit(res):
 def replayer(bld):
     bld = parse_build()
     def rp(path, c):
-        bld_, mod, snap, R, reg, ex, st, W = setup(c['scen'], 'none')
-        nat = native_parse(bld, c['scen'], c.get('cmd', []), c.get('cfg', []))
+        if c.get('replay') != 'parse-error':
+            bld_, mod, snap, R, reg, ex, st, W = setup(c['scen'], 'none')
+            nat = native_parse(bld, c['scen'], c.get('cmd', []), c.get('cfg', []))
+        if c.get('replay') == 'parse-error':
+            sc = c['scen']
+            nat = native_parse(bld, 'cfg' if sc == 'cfgerror' else 'nocfg', ['--NoSuchOption', '1'] if sc == 'cmderror' else [], ['NoSuchOption=1'] if sc == 'cfgerror' else [])
+            return (nat['threw'] == 0, 'native parse() with an unknown option %s: threw %d, returned %d' % ('in the config file' if sc == 'cfgerror' else 'on the command line', nat['threw'], nat['ret']))
         if 'expect_ret' in c: return (nat['ret'] != c['expect_ret'], 'native parse() returned %d (threw %d)' % (nat['ret'], nat['threw']))
         n = c['option']; al = alias_groups(reg)
         o = dict(reg['cfgfile'], **reg['cmdline'])[n]
@@ -538,7 +562,7 @@ def main(tier):
     jobs = [(job_registry, ()), (job_calibrate, ()), (job_main_exit, ())]
     for scen in ('cfg', 'nocfg'):
         for sm in (('none', 'cmd', 'cfg', 'both') if scen == 'cfg' else ('none', 'cmd')): jobs.append((job_parse, (scen, sm)))
-    jobs.append((job_parse, ('missing', 'none')))
+    jobs.append((job_parse, ('missing', 'none'))); jobs.append((job_parse, ('cfgerror', 'none'))); jobs.append((job_parse, ('cmderror', 'none')))
     for f in ('help', 'version', 'copyright', 'buildinfo'): jobs.append((job_parse, ('flag:' + f, 'none')))
     chk.bounds = {'options': 'every scalar option of the registry symbolic at once: given / not given on the command line and in the config file (Bool each), values arbitrary (one symbol per source)',
                   'string_and_vector_options': 'given nowhere / command line / config file / both, with fixed distinct values', 'config_file': 'existing regular file / none / missing / cannot be opened'}
